@@ -28,10 +28,13 @@ func genC06(r *rng, n int, tier string) []string {
 	out := []string{}
 	for i := 0; i < n; i++ {
 		seed := r.next() % (1 << 40)
-		if r.chance(1, 2) {
+		switch r.intn(5) {
+		case 0, 1:
 			out = append(out, fmt.Sprintf("G %d", seed))
-		} else {
+		case 2, 3:
 			out = append(out, fmt.Sprintf("R %d", seed))
+		default:
+			out = append(out, fmt.Sprintf("GAP %d", seed))
 		}
 	}
 	return out
@@ -204,10 +207,69 @@ func sameButIndent(tab, v, u string) string {
 	return ""
 }
 
+// gapVariants renders a reference program with single spaces and then, for every gap
+// between two tokens where ECMAScript permits a line terminator, yields the variant
+// with a line break there and the variant with a comment + line break there. This
+// enumerates the single-gap layouts instead of sampling them.
+func gapVariants(seed uint64) []string {
+	r := newRng(seed, "c06gap")
+	g := &shapeGen{r: r}
+	n := 1 + r.intn(3)
+	stmts := make([]*shape, n)
+	for i := range stmts {
+		stmts[i] = g.stmt(1 + r.intn(2))
+	}
+	w := &renderer{r: r, layout: 1, semis: 0}
+	w.stmts(stmts)
+	w.finish()
+	var out []string
+	for gap := 1; gap < len(w.toks); gap++ {
+		if w.toks[gap].noLFbef {
+			continue
+		}
+		for _, ins := range []string{"\n", " // c\n"} {
+			var b strings.Builder
+			for i, t := range w.toks {
+				if i > 0 {
+					if i == gap {
+						b.WriteString(ins)
+					} else {
+						b.WriteString(" ")
+					}
+				}
+				b.WriteString(t.text)
+			}
+			out = append(out, b.String())
+		}
+	}
+	return out
+}
+
 func checkC06(line string, dist map[string]int) (detail, sig, class string) {
 	p := strings.SplitN(line, " ", 2)
 	if len(p) != 2 {
 		return "bad input line", "", ""
+	}
+	if p[0] == "GAP" {
+		var seed uint64
+		fmt.Sscan(p[1], &seed)
+		vs := gapVariants(seed)
+		dist["kind=GAP"]++
+		dist["gap-variants"] += len(vs)
+		anySig := ""
+		for _, v := range vs {
+			d, sg, cl := checkC06("X "+hx(v), dist)
+			if sg != "" {
+				anySig = sg
+			}
+			if d != "" && cl == "" {
+				return d, sg, cl
+			}
+			if d != "" && detail == "" {
+				detail, class = d, cl
+			}
+		}
+		return detail, anySig, class
 	}
 	var seed uint64
 	fmt.Sscan(p[1], &seed)
@@ -217,6 +279,8 @@ func checkC06(line string, dist map[string]int) (detail, sig, class string) {
 		src = genProgram(newRng(seed, "c06src"))
 	case "R":
 		src = c06Reference(seed)
+	case "X": // explicit source (hex): replays cases of the correspondence suites and gap variants
+		src = unhx(strings.TrimSpace(p[1]))
 	default:
 		return "bad input kind", "", ""
 	}
